@@ -58,8 +58,8 @@ Fixpoint c_enc_loop (fuel : nat) (nb : Z) (num : Z) (b : cbuf) : Z * cbuf :=
 
 (* static void encodebits(int buf[], int num_of_bits, int num); the trailing partial byte
    cbuf[cnt] = lastbyte << (8 - lastbits) is produced by [c_flush] *)
-Definition c_encodebits (b : cbuf) (num_of_bits : Z) (num : Z) : cbuf :=
-  let '(nb, b1) := c_enc_loop 10 num_of_bits num b in
+(* the if (num_of_bits > 0) part after the loop *)
+Definition c_enc_tail (b1 : cbuf) (nb : Z) (num : Z) : cbuf :=
   if 0 <? nb then
     let lastbyte := u32 (Z.lor (Z.shiftl (cb_lastbyte b1) nb) num) in
     let lastbits := cb_lastbits b1 + nb in
@@ -67,6 +67,9 @@ Definition c_encodebits (b : cbuf) (num_of_bits : Z) (num : Z) : cbuf :=
     then CBuf (cb_bytes b1 ++ [u8 (Z.shiftr lastbyte (lastbits - 8))]) (lastbits - 8) lastbyte
     else CBuf (cb_bytes b1) lastbits lastbyte
   else b1.
+
+Definition c_encodebits (b : cbuf) (num_of_bits : Z) (num : Z) : cbuf :=
+  let '(nb, b1) := c_enc_loop 10 num_of_bits num b in c_enc_tail b1 nb num.
 
 (* bytes handed to xdrfile_write_opaque: cnt bytes plus the partial one when lastbits != 0 *)
 Definition c_flush (b : cbuf) : list Z :=
